@@ -225,6 +225,7 @@ def main(argv=None):
     known_hit = []
     tool_errors = []
     undecided = []
+    bounded_clauses = set()
     n_obl = n_dis = 0
     solver_s = 0.0
     samples = []
@@ -267,6 +268,8 @@ def main(argv=None):
                 tool_errors.append(f"native harness for {c.fq}: {nat['error']}")
             native_evals += nat.get("evaluations", 0)
             native_distinct += nat.get("distinct", 0)
+            bounded_clauses.update(f"{c.fq}:{n_} ({nat.get('evaluations', 0)} inputs)"
+                                   for n_ in nat.get("native_only_clauses", []))
             for fl in nat.get("failures", []):
                 for cl, detail in fl["clauses"]:
                     nat_fail_clauses.setdefault(cl, []).append((fl["index"], detail, fl["input"]))
@@ -327,6 +330,19 @@ def main(argv=None):
             if cl in ("requires-raised",):
                 continue
             if not clause_in_property(c, cl, "ensures", prop):
+                continue
+            if cl.startswith("native_"):
+                # a clause about object identity / sharing, which the value-semantics encoding cannot state: it is
+                # checked on the native inputs only (a bounded check, reported as such in the evidence) - a failing
+                # input is a violation with a replay like any other
+                bounded_clauses.add(f"{c.fq}:{cl}")
+                if match_known(c.fq, "native", cl) is None:
+                    from . import native
+                    violations += 1
+                    rpath = os.path.join(OUT, "replay", f"{prop}-{hashlib.sha1((c.fq + cl).encode()).hexdigest()[:10]}.py")
+                    native.write_replay(rpath, prop, f"{c.fq}/native:{cl}", c.fq, c.spec_module, c.name, seed,
+                                        hits[0][0], [cl])
+                    lines.append(f"VIOLATION property={prop} replay={rpath}")
                 continue
             # verification is modular: a caller is proved against its callees' CONTRACTS, so when some function of
             # this run fails its own contract, native failures of its callers are expected consequences, not a
@@ -404,6 +420,9 @@ def main(argv=None):
             assumptions.append(f"assumed lemma instance at entry of {c.fq}: {an}")
         if c.notes:
             assumptions.append(f"{c.fq}: {c.notes}")
+    for bc in sorted(bounded_clauses):
+        assumptions.append(f"BOUNDED, not proved: clause {bc} is about object identity (no sharing of mutable parts), "
+                           f"which the value-semantics encoding cannot state; it is checked on random native inputs only")
     if custom and not custom.get("error"):
         assumptions.extend(custom.get("assumptions", []))
     assumptions.extend(f"spec scan: {s}" for s in specs.assumption_scan if any(
@@ -433,6 +452,7 @@ def main(argv=None):
         "solver_seconds": round(solver_s, 2),
         "backend": "z3-5.1 python API" + (" + custom AST obligations" if custom else ""),
         "known_finding_obligations": len(known_hit),
+        "bounded_not_proved": sorted(bounded_clauses),
         "native_cross_check_evaluations": native_evals,
         "evaluations": n_obl + native_evals,
         "distinct_nontrivial": distinct_obls + native_distinct,
